@@ -95,6 +95,7 @@ def gen_env(rng: Rng, n_ranks: int, faulty: bool) -> Dict[str, Any]:
     env["log_level"] = "DEBUG" if rng.chance(0.1) else "CRITICAL"
     # the session's wall clock is simulated (time.time): start phase within a second and the jumps between operations
     env["clock_seed"] = rng.fork("clock").below(1 << 30)
+    env["clock_model"] = 2
     return env
 
 
